@@ -4,7 +4,7 @@
 From Coq Require Import List Arith Bool Lia.
 Import ListNotations.
 From KV Require Import Model.Placement Model.Kfac Model.KfacComm Proofs.KfacCommP.
-From KV Require Import Model.Neox Model.Shard Model.NeoxComm Proofs.NeoxCommP.
+From KV Require Import Model.Neox Model.Shard Model.NeoxComm Proofs.NeoxCommP Proofs.NeoxCommDtypeP.
 From KV Require Import Proofs.KfacCommFlushP Proofs.KfacCommDtypeP.
 From KV Require Import Model.Coll Proofs.CollP.   (* last: CollP.steps / finished, not the record field Kfac.steps *)
 
@@ -165,6 +165,13 @@ Qed.
 (* non-vacuity: data x model = 2 x 2, a row-parallel layer with bias whose inverse worker is rank 0: one
    forward / backward / step; rank 3 = (d 1, m 1) is neither the primary of its model-parallel group nor in the
    inverse worker's: it gathers its input shard, joins the stage allreduce of G and receives the gradient *)
+(* dtypes of the GPT-NeoX generator: the factor allreduces of the hook events carry the factor dtype; every gather, scatter and
+   broadcast and the loop's own allreduces the dtype of activations / parameters - per rank and in the global order *)
+Theorem neox_generator_dtypes : forall c layers h i,
+  (In i (neox_order c layers h) -> exists e, In e h /\ nx_dt_ok c (nxev_fac e) i) /\
+  (forall r, In i (neox_issues c layers r h) -> exists e, In e h /\ nx_dt_ok c (nxev_fac e) i).
+Proof. intros c layers h i. split; [apply neox_order_dt|intros r; apply neox_issues_dt]. Qed.
+
 Example neox_issues_2x2 :
   let c := {| nP := 1; nD := 2; nM := 2; nsym := false; nfdt := 3; nxdt := 4 |} in
   let ls := fun _ : nat => [ {| x_par := ParInput; x_in := 2; x_out := 3; x_bias := true; x_rows := 2; x_inv := 0 |} ] in
@@ -207,3 +214,4 @@ Print Assumptions queries_silent_at_step_boundary.
 Print Assumptions generator_dtypes.
 Print Assumptions neox_comm_proj.
 Print Assumptions neox_never_stalls.
+Print Assumptions neox_generator_dtypes.
